@@ -908,6 +908,16 @@ func main() {
 				}
 			}
 		}
+		if *profile == "load" {
+			// systematic part: seccomp(2) refused with each errno, with and without NoNewPrivs, privileged and not
+			// (an error path that treats one errno, or one combination, differently shows up here)
+			for _, ref := range []string{"", "EPERM", "EACCES", "ENOMEM", "EAGAIN", "ESRCH", "EBUSY", "EINTR"} {
+				for _, nnp := range []bool{true, false} {
+					histories = append(histories, History{Privileged: true, Threads: 1, NoSeccomp: true, Refusal: ref,
+						Ops: []Op{{Op: "load", Thread: 0, NNP: nnp, Flags: 0, Policy: "valid"}}})
+				}
+			}
+		}
 		rng := rand.New(rand.NewSource(*seed))
 		for i := 0; i < *n; i++ {
 			histories = append(histories, genHistory(rng, *profile))
